@@ -36,8 +36,31 @@ def mutate(rnd, b: bytes) -> bytes:
     return bytes(b)
 
 
-def decode_any(kind, typ, body):
-    """-> None or failure; forces lazy parts"""
+class _Timeout(Exception):
+    pass
+
+
+def _alarm(signum, frame):
+    raise _Timeout()
+
+
+def decode_any(kind, typ, body, limit_s=5):
+    """-> None or failure; forces lazy parts.  A decode that does not come back within limit_s seconds is reported as
+    a failure (loops without bound), it never hangs the check"""
+    import signal
+
+    old = signal.signal(signal.SIGALRM, _alarm)
+    signal.setitimer(signal.ITIMER_REAL, limit_s)
+    try:
+        return _decode_any(kind, typ, body)
+    except _Timeout:
+        return {'what': f'decoding {len(body)} bytes of message type {typ} did not finish within {limit_s} s (unbounded loop)', 'input': {'kind': kind, 'type': typ, 'body': body.hex()}}
+    finally:
+        signal.setitimer(signal.ITIMER_REAL, 0)
+        signal.signal(signal.SIGALRM, old)
+
+
+def _decode_any(kind, typ, body):
     from exabgp.bgp.message import Message
 
     nb, neg = P.get_session(kind)
@@ -116,3 +139,77 @@ def structured_mutations(tier, seed):
 def _replay(f):
     i = f['input']
     return decode_any(i['kind'], i['type'], bytes.fromhex(i['body'])) is None
+
+
+@bounded('C03', 'every-truncation')
+def every_truncation(tier, seed):
+    """EVERY prefix of every valid message (all truncation points, not a sample): a truncated message is refused with a
+    NOTIFICATION or decoded, never answered with another exception.  Exact-boundary defects need exactly this."""
+    rnd = random.Random(seed + 3)
+    fails, evals, distinct, samples = [], 0, set(), []
+    for kind in ('ebgp4', 'ibgp2', 'addpath'):
+        bodies = []
+        for _ in range(3 if tier == 'quick' else 25):
+            bodies += valid_bodies(rnd, kind)
+        for typ, body in bodies:
+            for cut in range(len(body) + 1):
+                m = body[:cut]
+                if (kind, typ, m) in distinct:
+                    continue
+                distinct.add((kind, typ, m))
+                evals += 1
+                f = decode_any(kind, typ, m)
+                if f:
+                    f['input']['truncated_at'] = cut
+                    f['input']['of'] = len(body)
+                    fails.append(f)
+        samples.append({'kind': kind, 'type': bodies[0][0], 'full_length': len(bodies[0][1])})
+    return {'evaluations': evals, 'distinct_nontrivial': len(distinct), 'exhaustive': True, 'bound': 'every truncation point of 36 (quick) / 300 (thorough) valid messages of all six types per session kind x 3 session kinds', 'rule': 'one case = (session kind, type, prefix of a valid body); distinct by bytes', 'samples': samples, 'failures': fails}
+
+
+@replayer('C03', 'every-truncation')
+def _replay_trunc(f):
+    i = f['input']
+    return decode_any(i['kind'], i['type'], bytes.fromhex(i['body'])) is None
+
+
+@bounded('C03', 'every-attribute-truncation')
+def every_attribute_truncation(tier, seed):
+    """every prefix of every attribute VALUE of well-formed UPDATEs, with the attribute header and the block length
+    recomputed (so the truncated value really reaches its decoder): refused with a NOTIFICATION, treated as withdraw,
+    or decoded -- never another exception, never a hang"""
+    import struct
+
+    rnd = random.Random(seed + 5)
+    fails, evals, distinct, samples = [], 0, set(), []
+    for kind in ('ebgp4', 'ibgp2', 'addpath'):
+        for _ in range(12 if tier == 'quick' else 150):
+            body, attrs, wd, nlri = P.gen_update(rnd, kind)
+            for k, (name, tlv) in enumerate(attrs):
+                flags, typ = tlv[0], tlv[1]
+                hdr = 4 if flags & 0x10 else 3
+                val = tlv[hdr:]
+                for cut in range(len(val)):
+                    v = val[:cut]
+                    new = (bytes([flags, typ]) + struct.pack('!H', len(v)) + v) if flags & 0x10 else (bytes([flags, typ, len(v)]) + v)
+                    blob = b''.join(t if j != k else new for j, (_, t) in enumerate(attrs))
+                    b2 = W.update_body(wd, blob, nlri)
+                    if (kind, b2) in distinct:
+                        continue
+                    distinct.add((kind, b2))
+                    evals += 1
+                    f = decode_any(kind, 2, b2)
+                    if f:
+                        f['input']['attribute'] = name
+                        f['input']['value_truncated_at'] = cut
+                        f['input']['of'] = len(val)
+                        fails.append(f)
+            if len(samples) < 3:
+                samples.append({'kind': kind, 'attributes': [a for a, _ in attrs]})
+    return {'evaluations': evals, 'distinct_nontrivial': len(distinct), 'exhaustive': True, 'bound': 'every truncation point of every attribute value (lengths recomputed) of 12 (quick) / 150 (thorough) generated UPDATEs x 3 session kinds', 'rule': 'one case = (session kind, UPDATE with one attribute value truncated); distinct by bytes', 'samples': samples, 'failures': fails}
+
+
+@replayer('C03', 'every-attribute-truncation')
+def _replay_attr_trunc(f):
+    i = f['input']
+    return decode_any(i['kind'], 2, bytes.fromhex(i['body'])) is None
